@@ -154,8 +154,12 @@ Definition num_step (st : nstate) : option (res nstate) :=
       let '(beg, ps) := if Z.ltb (nbeg st) 0 then (i, p_new gen_cfg) else (nbeg st, nps st) in
       let '(ok, ps') := feed_chars ps s in
       if ok then Some (Ok (mkNS p i beg (ncad st) (npad st) ps'))
-      else if N.eqb (er ps') E_COMMA then Some (Ok (mkNS p (beg - 1) (-1) false (npad st) ps'))
-      else if N.eqb (er ps') E_POINT then Some (Ok (mkNS p (beg - 1) (-1) (ncad st) false ps'))
+      (* the run is restarted without the offending separator only while that separator still counts as a digit
+         (RF.restart_requires_flag: the repaired code; without the guard the same run failed for ever) *)
+      else if N.eqb (er ps') E_COMMA && (negb RF.restart_requires_flag || ncad st)
+      then Some (Ok (mkNS p (beg - 1) (-1) false (npad st) ps'))
+      else if N.eqb (er ps') E_POINT && (negb RF.restart_requires_flag || npad st)
+      then Some (Ok (mkNS p (beg - 1) (-1) (ncad st) false ps'))
       else Some (Ok (mkNS p i (-1) (ncad st) (npad st) ps'))
     else
       let c := single_ascii s in
@@ -211,7 +215,8 @@ Fixpoint num_loop (fuel : nat) (st : nstate) : option (res (list node)) :=
            end
   end.
 
-Definition num_fuel (p : list node) : nat := 2 * length p * length p + 2 * length p + 2.
+(* proved sufficient in Proofs/RewriteTermination.v: 3(n+1)^2 iterations *)
+Definition num_fuel (p : list node) : nat := 3 * S (length p) * S (length p).
 
 Definition join_numeric (p : list node) : option (res (list node)) :=
   num_loop (num_fuel p) (mkNS p (-1) (-1) true true (p_new gen_cfg)).
